@@ -299,7 +299,26 @@ def includes_resolve(inc, ex1, ex2, d1, d2):
         return False
     if sorted(processed) != sorted(reach):
         return False
-    return True
+    # exact diagnostics: a depth-first walk in include order; "included again" only for a file that is still being
+    # processed (a real cycle), never for a file that was already processed completely (diamond, empty file)
+    want = [0, 0]                                       # [not found, included again]
+    stack, done_ = [], set()
+
+    def walk(i):
+        stack.append(i)
+        for j in range(3):
+            if inc[i * 3 + j]:
+                if not (exists[j] and (where[j] == where[i] or where[j] == 'inc')):
+                    want[0] += 1
+                elif j in stack:
+                    want[1] += 1
+                elif j not in done_:
+                    walk(j)
+        stack.pop()
+        done_.add(i)
+    walk(0)
+    got = [len([1 for _, m in errors_seen if 'not found' in m]), len([1 for _, m in errors_seen if 'included again' in m])]
+    return got == want
 
 
 def path_resolution(in_own, in_i1, in_i2, nested):
